@@ -51,9 +51,15 @@ func lastError(sig *types.Signature, res *SV) (string, bool) {
 	return res.tup[r.Len()-1].v.T, true
 }
 
+// neverFails: library functions whose error result is documented to be always nil.
+var neverFails = map[string]bool{
+	"(*strings.Builder).WriteString": true, "(*strings.Builder).WriteByte": true, "(*strings.Builder).WriteRune": true, "(*strings.Builder).Write": true,
+	"(*bytes.Buffer).WriteString": true, "(*bytes.Buffer).WriteByte": true, "(*bytes.Buffer).WriteRune": true, "(*bytes.Buffer).Write": true,
+}
+
 func (fv *FnV) recordErrCall(st *State, callee string, sig *types.Signature, res *SV, pos token.Pos) {
 	e, ok := lastError(sig, res)
-	if !ok {
+	if !ok || neverFails[callee] {
 		return
 	}
 	ec := &errCall{id: len(fv.errCalls), callee: callee, errV: e, pos: pos, block: fv.curBlock}
